@@ -30,6 +30,10 @@ registry! {
     "C19" => c19,
     "C23" => c23,
     "C24" => c24,
+    "C25" => c25,
+    "C26" => c26,
+    "C27" => c27,
+    "C28" => c28,
     "C34" => c34,
     "C36" => c36,
     "C37" => c37,
